@@ -23,7 +23,7 @@ import (
 	"verif.local/harness/sto"
 )
 
-const rule = "many short concurrent histories: per backend (11 backends, 6 compositions) 2-16 client goroutines x 30-60 calls (receive/fetch/subfetch/stat/batched stat/enumerate/remove/multi-remove) over 6-10 shared blobs with seeded yields/sleeps at the harness-owned lower layers, plus index+corpus histories (one writer per permanode, delete claims racing their targets, readers under RLock and search queries); every key's call/return history is checked with porcupine against a register, fetched bytes against the content, and every race-detector report with a perkeep frame is a violation; distinct = (backend, per-key interleaving shape) of a key on which a write overlapped another operation"
+const rule = "many short concurrent histories: per backend (11 backends incl. files over a yielding VFS and diskpacked over yielding on-disk indexes, 6 compositions) 2-16 client goroutines x 30-60 calls (receive/fetch/subfetch/stat/batched stat/enumerate/remove/multi-remove) over 6-10 shared blobs plus blobs only their owner writes (write, then read by the same client), with seeded yields/sleeps at the harness-owned lower layers; replica with early acknowledgement runs a directed own-blob program with one slow replica; plus index+corpus histories (one writer per permanode, delete claims racing their targets, files/directories/second-signer blobs delivered out of order with the dependency lookup missing right before the dependency is indexed, readers under RLock and through the search handler's entry points); every key's call/return history is checked with porcupine against a register, fetched bytes against the content, the quiescent index against a sequential reference delivery, and every race-detector report with a perkeep frame is a violation; distinct = (backend, per-key interleaving shape) of a key on which a write overlapped another operation"
 
 func sp(kind string, p map[string]any, kids ...*sto.Spec) *sto.Spec {
 	return &sto.Spec{Kind: kind, P: p, Kids: kids}
@@ -38,6 +38,7 @@ type plan struct {
 	mode     string
 	weight   int // relative number of histories
 	composed bool
+	label    string // overrides the compact spec (configurations of the same tree shape that must not share signatures)
 }
 
 func plans() []plan {
@@ -62,6 +63,14 @@ func plans() []plan {
 		{spec: sp("namespace", nil, sp("shard", nil, mem(), sp("localdisk", nil))), weight: 2, composed: true},
 		{spec: sp("proxycache", map[string]any{"cacheBytes": 300}, dp("leveldb")), weight: 2, composed: true},
 		{spec: sp("blobpacked", map[string]any{"meta": "memory"}, mem(), sp("diskpacked", map[string]any{"meta": "leveldb"})), mode: "packfile", weight: 2, composed: true},
+		// (new plans go at the end: the position is part of the case ids)
+		// early acknowledgement (minWritesForSuccess < replicas): only the directed own-blob program, see jobSpec.Owners
+		{spec: sp("replica", map[string]any{"minWrites": 1}, mem(), mem()), mode: "ackearly", weight: 2, label: "replica-min1[memory,memory]"},
+		// schedule perturbation inside the file-system steps of files/localdisk and between diskpacked's steps on an on-disk index
+		{spec: sp("files-yieldvfs", nil), weight: 3, label: "files"},
+		{spec: sp("diskpacked-wrapkv", map[string]any{"maxFileSize": 700, "meta": "leveldb"}), weight: 2, label: "diskpacked"},
+		{spec: sp("diskpacked-wrapkv", map[string]any{"maxFileSize": 700, "meta": "kv"}), weight: 1, label: "diskpacked"},
+		{spec: sp("diskpacked-wrapkv", map[string]any{"maxFileSize": 700, "meta": "sqlite"}), weight: 1, label: "diskpacked"},
 	}
 }
 
@@ -155,8 +164,11 @@ func run(r *ev.Run) {
 	log.SetOutput(io.Discard)
 	r.Assume("call and return stamps are ticks of one process-global atomic counter, taken before the call and after the reply (and after the fetched body was read) at the public Storage / Index boundary")
 	r.Assume("multi-key calls (batched stat, enumerate, multi-remove) are decomposed into per-key operations sharing the call's interval; an enumeration page says nothing about keys beyond its last ref when it is full")
-	r.Assume("a failed, panicked or never-returning call may or may not have taken effect; replica is used with minWritesForSuccess = number of replicas only")
-	r.Assume("index readers hold Index.RLock around corpus/index reads, as pkg/search does; a delete claim delivered before (or while) its target is delivered is indexed asynchronously, so its effect is an open-ended write, checked for presence after quiescence")
+	r.Assume("a failed, panicked or never-returning call may or may not have taken effect; the random histories use replica with minWritesForSuccess = number of replicas only")
+	r.Assume("replica with minWritesForSuccess < replicas acknowledges a receive while uploads to the other replicas are still in flight (documented: writes wait for minWritesForSuccess), so a remove issued right after such a receive may be overtaken; that configuration therefore only runs the directed own-blob program: blobs pre-loaded on every replica, removed once by their owner (every later read must say absent), received once afterwards (every later read must say present), shared blobs never removed")
+	r.Assume("own blobs: written by one client only, one call at a time; their histories are judged like every other key, under the class nonlinearizable-own-blob (no write-write race can explain an anomaly there)")
+	r.Assume("a blob whose index dependencies (file: its chunks; directory: its static-set; signed blob: the signer's public key; delete claim: its target) were all acknowledged before its delivery started is indexed synchronously (a definite write); otherwise it is indexed asynchronously (open-ended write) and must be indexed at quiescence, when the index rows must equal those of a sequential delivery of the same blobs in dependency order")
+	r.Assume("index readers hold Index.RLock around corpus/index reads, as pkg/search does; the search handler's entry points are called without any harness lock; a delete claim delivered before (or while) its target is delivered is indexed asynchronously, so its effect is an open-ended write, checked for presence after quiescence")
 	r.Assume("race oracle = Go race detector reports (GORACE log_path) of the child processes; a report is judged when a perkeep frame is on either access stack; signature = innermost perkeep function of each access stack")
 	if !raceEnabled {
 		r.Inconclusive("this binary was not built with -race: the race oracle is not armed (run through ./check)")
@@ -171,13 +183,22 @@ func run(r *ev.Run) {
 	for pi, p := range ps {
 		n := p.weight * perWeight
 		label := compactSpec(p.spec)
+		if p.label != "" {
+			label = p.label
+		}
 		rng := r.Rand(fmt.Sprintf("store/%d/%s", pi, p.spec))
 		for h := 0; h < n; h++ {
 			j := jobSpec{
 				ID: fmt.Sprintf("s%d.%d;", pi, h), Kind: "store", Composed: p.composed, Label: label, Spec: p.spec, Seed: rng.Int63n(1 << 40),
 				Clients: []int{2, 3, 4, 6, 8, 12, 16}[(h+pi)%7], Ops: 30 + rng.Intn(31), Blobs: 6 + rng.Intn(5),
 			}
-			if p.mode != "" && h%2 == 0 {
+			j.Owners, j.OwnBlobs = 3, 2
+			if j.Clients < j.Owners {
+				j.Owners = j.Clients
+			}
+			if p.mode == "ackearly" {
+				j.Mode, j.Owners = p.mode, j.Clients
+			} else if p.mode != "" && h%2 == 0 {
 				j.Mode = p.mode
 				j.PackSafe = p.mode == "packfile" && h%4 == 0
 				if p.mode == "packfile" {
@@ -194,12 +215,13 @@ func run(r *ev.Run) {
 	irng := r.Rand("index")
 	kvs := []string{"memory"}
 	if r.Thorough() {
-		kvs = []string{"memory", "memory", "leveldb", "kv"}
+		kvs = []string{"memory", "memory", "leveldb", "kv", "memory", "sqlite"}
 	}
 	for h := 0; h < r.Pick(8, 240); h++ {
 		indexJobs = append(indexJobs, jobSpec{
 			ID: fmt.Sprintf("i%d;", h), Kind: "index", Label: "index+corpus", Seed: irng.Int63n(1 << 40),
 			Permanodes: 3, Claims: 8, Victims: 3, Readers: []int{2, 4, 6, 8, 12}[h%5], Reads: 40 + irng.Intn(41), KV: kvs[h%len(kvs)],
+			Deps: true, Handler: true,
 		})
 	}
 	filter := func(js []jobSpec) []jobSpec {
@@ -342,9 +364,14 @@ func run(r *ev.Run) {
 		r.Inconclusive(fmt.Sprintf("%d porcupine timeouts and %d hung histories out of %d histories", linTimeouts, hung, totalHist))
 	}
 	if os.Getenv("VERIF_ONLY") == "" {
-		r.Require("backend_kinds", "memory", "localdisk", "diskpacked", "blobpacked", "encrypt", "replica", "shard", "cond", "overlay", "namespace", "proxycache")
-		r.Require("events", "overlapping-operations", "pack-rollover", "zip-packed", "encrypt-compaction", "index+corpus", "race-logs-located", "race-detector-canary-reported")
+		r.Require("backend_kinds", "memory", "localdisk", "diskpacked", "blobpacked", "encrypt", "replica", "shard", "cond", "overlay", "namespace", "proxycache", "files")
+		r.Require("events", "overlapping-operations", "pack-rollover", "zip-packed", "encrypt-compaction", "index+corpus", "race-logs-located", "race-detector-canary-reported",
+			"own-blob-sequences", "own-blobs-preloaded-on-every-replica", "slow-replica-remove",
+			"vfs-step-yields", "ondisk-kv-yields-leveldb", "ondisk-kv-yields-kv", "ondisk-kv-yields-sqlite",
+			"index-out-of-order-file", "index-out-of-order-directory", "index-out-of-order-permanode2", "index-out-of-order-claim2",
+			"index-dep-lookup-missed", "index-dep-miss-held", "index-miss-acted-on-after-dep-indexed", "index-rows-compared-with-sequential-reference")
 		r.Require("history_kinds", "store", "store-composition", "index")
+		r.Require("index_ops", "GetBlobMeta", "GetFileInfo", "PermanodeAttrValue", "AppendClaims", "Query", "Query-mod", "GetRecentPermanodes", "Describe", "GetClaims", "EdgesTo", "GetPermanodesWithAttr")
 	}
 }
 
@@ -392,6 +419,11 @@ func mergeResult(r *ev.Run, res *histResult) {
 		r.Count("ops_"+op, n)
 		r.Count("ops@"+res.Label, n)
 	}
+	if res.Kind == "index" {
+		for op := range res.Ops {
+			r.Note("index_ops", op)
+		}
+	}
 	for _, s := range res.Shapes {
 		r.Distinct(s)
 	}
@@ -412,6 +444,8 @@ func mergeResult(r *ev.Run, res *histResult) {
 		fmt.Printf("NOTE property=C14 inconclusive history %s: %s\n", res.ID, truncateLines(m, 6))
 	}
 	for _, v := range res.Viols {
+		// every signature that fired, whether or not a known-findings key (possibly a wildcard) covers it
+		r.Note("signatures_fired", "C14/"+v.Sig)
 		r.Violation(v.Sig, v.What, v.Witness)
 	}
 	if res.Sample != nil && sampled[res.Kind+res.Label] == 0 && (res.Kind == "index" || len(sampled) < 4) {
@@ -540,6 +574,7 @@ func judgeRaces(r *ev.Run, prefixes []string) {
 		dedupStacks += len(g.stacks)
 		entry := map[string]any{"class": g.class, "sites": g.sig, "reports": g.n, "distinct_stack_pairs": len(g.stacks), "outermost_perkeep_entry_points": g.outer}
 		if g.class == "perkeep" {
+			r.Note("signatures_fired", "C14/race/"+g.sig)
 			r.Violation("race/"+g.sig,
 				fmt.Sprintf("data race reported by the Go race detector (%d reports, %d distinct stack pairs, children %v); entry points %v:\n%s",
 					g.n, len(g.stacks), keysOf(g.children), keysOfInt(g.outer), truncateLines(g.first.Text, 70)),
